@@ -152,15 +152,13 @@ def task(R, item):
                             it = pix[0].ev.args[1]
                             okk = isinstance(it, Agg) and it.name in ("core::iter::take",) and isinstance(it.fields[1], IntV)
                             n = f.simplify(it.fields[1].poly()) if okk else None
+                            why = None
                             if not okk and isinstance(it, Agg) and it.name == "core::iter::take_while":
-                                # 16-bit pointer variant: a counting closure capturing the limit
-                                cl = it.fields[1]
-                                caps = [x for x in getattr(cl, "fields", []) if isinstance(x, IntV)]
-                                n = None
-                                for x in caps:
-                                    if f.simplify(x.poly()) == area:
-                                        n = area
+                                # 16-bit pointer variant: a counting predicate; how many items it admits is decided
+                                # from the predicate's own body (step +1 of a captured counter, one comparison)
+                                n, why = C.take_while_admits(R, F, it)
+                                n = f.simplify(n) if n is not None else None
                                 okk = n is not None
                             R.ob("C08d-pixel-count-equals-window", "%s|take-limit" % tag, okk and n == area,
-                                 "fill_contiguous limits the colour stream to %r pixels (iterator %s), the window holds %r"
-                                 % (n, getattr(it, "name", it), area), sample={"entry": nm, "take": repr(n), "window_area": repr(area)})
+                                 "fill_contiguous limits the colour stream to %r pixels (iterator %s%s), the window holds %r"
+                                 % (n, getattr(it, "name", it), "; " + why if why else "", area), sample={"entry": nm, "take": repr(n), "window_area": repr(area)})
